@@ -547,7 +547,77 @@ fn gen_large(rng: &mut Rng, thorough: bool) -> Vec<String> {
             }
         }
     }
+    gen_rp(rng, thorough, &mut out);
     out
+}
+
+/// RP25519: valid encodings (multiples of the base point), every single-bit flip of some of them,
+/// field-level non-canonical integers (>= 2^255-19, high bit set), "negative" (odd) integers, random
+/// strings and the two-byte-prefix family [b0, b1, 0, …, 0].
+fn gen_rp(rng: &mut Rng, thorough: bool, out: &mut Vec<String>) {
+    let ser = |p: RP25519| -> Vec<u8> {
+        let mut buf = GenericArray::<u8, <RP25519 as Serializable>::Size>::default();
+        p.serialize(&mut buf);
+        buf.to_vec()
+    };
+    let push = |out: &mut Vec<String>, b: &[u8]| out.push(format!("c09.rp de {}", hex(b)));
+    push(out, &[0u8; 32]);
+    let mut valid: Vec<Vec<u8>> = vec![];
+    for k in 1..=16u64 {
+        valid.push(ser(RP25519::from(Fp25519::from(Scalar::from(k)))));
+    }
+    valid.push(ser(RP25519::from(-Fp25519::ONE)));
+    for _ in 0..(if thorough { 200 } else { 20 }) {
+        let mut it_s = [0u8; 32];
+        it_s.copy_from_slice(&rng.bytes(32));
+        valid.push(ser(RP25519::from(Fp25519::from(Scalar::from_bytes_mod_order(it_s)))));
+    }
+    for (i, v) in valid.iter().enumerate() {
+        push(out, v);
+        if i < (if thorough { 40 } else { 4 }) {
+            for bit in 0..256 {
+                let mut f = v.clone();
+                f[bit / 8] ^= 1 << (bit % 8);
+                push(out, &f);
+            }
+        }
+    }
+    // integers around the field prime 2^255 - 19 and with the unused top bit set
+    let mut pm = [0xffu8; 32];
+    pm[31] = 0x7f;
+    for delta in -40i32..=2 {
+        let mut b = le_add(&pm, 0, 32);
+        b[0] = (0xed_i32 + delta).rem_euclid(256) as u8; // 2^255-19 = ed ff … 7f
+        if 0xed + delta < 0 {
+            continue;
+        }
+        push(out, &b);
+    }
+    push(out, &[0xff; 32]);
+    for v in valid.iter().take(8) {
+        let mut f = v.clone();
+        f[31] |= 0x80;
+        push(out, &f);
+        f = v.clone();
+        f[0] |= 1; // "negative" s
+        push(out, &f);
+    }
+    for _ in 0..(if thorough { 2000 } else { 200 }) {
+        push(out, &rng.bytes(32));
+        let mut r = rng.bytes(32);
+        r[31] &= 0x7f;
+        r[0] &= 0xfe;
+        push(out, &r);
+    }
+    let (n0, n1) = if thorough { (256u32, 256u32) } else { (256, 4) };
+    for b1 in 0..n1 {
+        for b0 in 0..n0 {
+            let mut b = [0u8; 32];
+            b[0] = b0 as u8;
+            b[1] = if n1 == 256 { b1 as u8 } else { [0u8, 1, 0x80, 0xff][b1 as usize] };
+            push(out, &b);
+        }
+    }
 }
 
 #[test]
